@@ -161,6 +161,93 @@ func checkErrDrop(r *Run, p *Prog, rule string, scope func(*FuncNode) bool, min 
 			return true
 		})
 	}
+	// E11c: an error accumulated over a loop. A variable of type error declared outside a
+	// loop and assigned inside it must only receive values known to be non-nil at that
+	// point (the assignment sits in the body of "if x != nil" for the assigned x, or it
+	// combines the accumulator with the new value): an unconditional "acc = err" lets a
+	// later successful iteration erase an earlier failure.
+	nAcc := 0
+	for _, fn := range p.Funcs {
+		if fn.Body == nil || !scope(fn) {
+			continue
+		}
+		var stack []ast.Node
+		ast.Inspect(fn.Body, func(x ast.Node) bool {
+			if x == nil {
+				stack = stack[:len(stack)-1]
+				return true
+			}
+			if _, isLit := x.(*ast.FuncLit); isLit {
+				return false
+			}
+			stack = append(stack, x)
+			as, ok := x.(*ast.AssignStmt)
+			if !ok || as.Tok.String() != "=" {
+				return true
+			}
+			// innermost enclosing loop
+			var loop ast.Node
+			for i := len(stack) - 1; i >= 0; i-- {
+				switch stack[i].(type) {
+				case *ast.ForStmt, *ast.RangeStmt:
+					loop = stack[i]
+				}
+				if loop != nil {
+					break
+				}
+			}
+			if loop == nil {
+				return true
+			}
+			for i, l := range as.Lhs {
+				acc := objOf(fn, l)
+				if acc == nil || !isErrorType(acc.Type()) || (acc.Pos() >= loop.Pos() && acc.Pos() <= loop.End()) {
+					continue
+				}
+				if _, isIdent := ast.Unparen(l).(*ast.Ident); !isIdent {
+					continue
+				}
+				var rhs ast.Expr
+				if len(as.Lhs) == len(as.Rhs) {
+					rhs = as.Rhs[i]
+				}
+				if rhs == nil {
+					continue // multi-value call: err reused as a plain call result, judged by the other rules
+				}
+				if _, isCall := ast.Unparen(rhs).(*ast.CallExpr); isCall && !exprMentions(fn, rhs, acc) {
+					// acc = f(): a plain reuse of the variable as a call result
+					if ro := objOf(fn, rhs); ro == nil {
+						continue
+					}
+				}
+				ro := objOf(fn, rhs)
+				if ro == nil || ro == acc {
+					continue
+				}
+				if !isErrorType(ro.Type()) {
+					continue
+				}
+				nAcc++
+				known := exprMentions(fn, rhs, acc)
+				for k := len(stack) - 1; k >= 0 && !known; k-- {
+					if stack[k] == loop {
+						break
+					}
+					if ifs, ok := stack[k].(*ast.IfStmt); ok && contains(ifs.Body, as) {
+						for _, atom := range conjuncts(ifs.Cond) {
+							if o, trueMeansNil, isCmp := nilCompare(fn, atom); isCmp && o == ro && !trueMeansNil {
+								known = true
+							}
+						}
+					}
+				}
+				key := "error accumulated over a loop: " + fn.Name + " (" + acc.Name() + " = " + ro.Name() + ")"
+				r.Ob(rule, key, posOf(p, as), known, "the accumulator is overwritten by a value that may be nil: a later successful iteration erases the failure of an earlier one")
+			}
+			return true
+		})
+	}
+	r.Stats["errdrop_accumulators_"+rule] = nAcc
 	r.Stats["errdrop_branches_"+rule] = nBranches
 	r.Ob(rule, "every other call in scope binds and uses its error", "", true, fmt.Sprintf("%d call statements and %d failure branches examined", total, nBranches))
 	r.Stats["errdrop_calls_"+rule] = total
